@@ -100,6 +100,28 @@ func (m *Machine) invokeValue(th *Thread, fnv Value, args []Value, dest ssa.Valu
 		nf.stubOf = name
 		return nf
 	}
+	// 2a. unique.Make[T]: the runtime's interning table (weak pointers, hash tries) is replaced
+	// by a canonical object per distinct concrete value, which is all Handle equality observes
+	if strings.HasPrefix(name, "unique.Make[") && len(args) == 1 {
+		key, ok := keyRepr(args[0])
+		if !ok {
+			m.unsupported("unique.Make of a symbolic value")
+		}
+		key = name + "|" + key
+		if m.uniqueObjs == nil {
+			m.uniqueObjs = map[string]*Obj{}
+		}
+		o := m.uniqueObjs[key]
+		if o == nil {
+			if !m.persist {
+				m.unsupported("unique.Make of a new value outside package initialisation")
+			}
+			o = m.newObj(copyValue(args[0]), fn.Signature.Params().At(0).Type(), "unique")
+			m.uniqueObjs[key] = o
+		}
+		deliver(&StructV{F: []Value{&Ptr{obj: o}}})
+		return nil
+	}
 	// 2. intrinsics
 	if h, ok := intrinsics[name]; ok {
 		m.pushedFrame, m.curDest, m.intrinsicIsDefer = false, dest, isDefer
@@ -163,6 +185,22 @@ func (m *Machine) insideStub(fr *Frame, name string) bool {
 // adaptStubArgs: stubs for methods take the receiver as first parameter.
 func (m *Machine) adaptStubArgs(stub, orig *ssa.Function, args []Value) []Value {
 	if len(stub.Params) == len(args) {
+		// a method promoted from an embedded first field (e.g. (*net.conn).Write called on a
+		// *net.UDPConn) is stubbed with the outer type as receiver: the receiver pointer to
+		// field 0 is turned back into the pointer to the enclosing object
+		if len(args) > 0 && len(orig.Params) > 0 {
+			if sp, ok := stub.Params[0].Type().Underlying().(*types.Pointer); ok && !types.Identical(stub.Params[0].Type(), orig.Params[0].Type()) {
+				if st, ok := sp.Elem().Underlying().(*types.Struct); ok && st.NumFields() > 0 && st.Field(0).Embedded() {
+					if op, ok := orig.Params[0].Type().Underlying().(*types.Pointer); ok && types.Identical(op.Elem(), st.Field(0).Type()) {
+						if p, ok := args[0].(*Ptr); ok && !p.IsNil() && p.sym == nil && len(p.path) > 0 && p.path[len(p.path)-1] == 0 {
+							na := append([]Value(nil), args...)
+							na[0] = &Ptr{obj: p.obj, path: append([]int(nil), p.path[:len(p.path)-1]...)}
+							return na
+						}
+					}
+				}
+			}
+		}
 		return args
 	}
 	if len(stub.Params) == 0 {
@@ -468,7 +506,7 @@ func zeroLike(v Value) Value {
 		}
 		return BVC(x.sort.W, 0)
 	case FloatV:
-		return FloatV{0, x.W}
+		return FloatV{F: 0, W: x.W}
 	case *StrV:
 		return &StrV{}
 	case *Ptr:
